@@ -218,6 +218,30 @@ def cexHistory : List LEv :=
   && !cexB.resetOnLogon && !cexB.resetOnLogout && !cexB.resetOnDisconnect && cexA.validator.app.isNone && cexB.validator.app.isNone
   && !cexA.nextExpected && !cexB.nextExpected
 
+/-! ### … and with EnableNextExpectedMsgSeqNum on both engines it is false too (hypotheses `hnxa hnxb` of `C05_safety`)
+
+B submits b1, b2; both are lost in flight; the engines reconnect.  A's Logon announces 789 = 2 (it still expects b1).  B — whose
+next outbound number is 4 — accepts, replies, and answers the 789 with ONE SequenceReset-GapFill 2 → 5: `handleLogon` never
+replays anything.  A finds the Logon reply too high and queues a ResendRequest, then gets the gap fill numbered exactly what it
+expects and skips to 5; b1 and b2, resent by B on the request, arrive as duplicates and are dropped.  b3 is delivered:
+dlvA = ["b3"] is not a prefix of sentB = ["b1", "b2", "b3"].  The same history with the option off delivers everything.
+The REAL engines do the same, line by line (corpus/C05/nx-gapfill-loses-messages.ops, family `link` with `nx=1`). -/
+def cexNxA : Cfg := { cexA with nextExpected := true }
+def cexNxB : Cfg := { cexB with nextExpected := true }
+def cexNxHistory : List LEv :=
+  [.connect, .deliver .B, .deliver .A,          -- logon handshake
+   .send .B "b1", .flush .B, .send .B "b2", .flush .B,
+   .cut,                                        -- b1, b2 lost in flight
+   .connect, .deliver .B,                       -- A's Logon: 789 = 2; B replies and fills 2 → 5
+   .deliver .A, .deliver .A,                    -- A: the reply (too high: ResendRequest queued), then the gap fill: expected number 5
+   .flush .A, .deliver .B,                      -- B answers the request: b1, b2 resent
+   .deliver .A, .deliver .A, .deliver .A,       -- … and dropped as duplicates
+   .send .B "b3", .flush .B, .deliver .A]
+#guard (let l := runLink (linkInit cexNxA cexNxB) cexNxHistory; (l.sentB, l.dlvA, safe l.sentA l.sentB l.dlvA l.dlvB))
+       == (["b1", "b2", "b3"], ["b3"], false)
+#guard (let l := runLink (linkInit cexA cexB) cexNxHistory; (l.sentB, l.dlvA, safe l.sentA l.sentB l.dlvA l.dlvB))
+       == (["b1", "b2", "b3"], ["b1", "b2", "b3"], true)
+
 /-- the mechanism behind the counterexample, for every state: an application message whose payload field is empty,
     arriving exactly at the expected number, is refused by the default validator with ValidateFieldsHaveValues on (its
     default) (Reject, reason 4, RefTagID 9000), its number
